@@ -13,7 +13,7 @@ TB_CODEC_ENC = [
     "Box<dyn MappingsEncoder> dispatch in create_encoder and the for_each driver loops of encode_mappings/get_map are outside the proof (rule D1 drops the trait)",
 ]
 
-from vx.kstages import k1_replace_inv, k2_eq_hash, k4_with_indices  # noqa: E402
+from vx.kstages import k1_replace_inv, k2_eq_hash, k4_with_indices, k5_codec_cross  # noqa: E402
 from vx.witness import codec_witness, mixed_witness, replace_witness  # noqa: E402
 
 PLAN = {
@@ -21,6 +21,8 @@ PLAN = {
         "level": "proof",
         "witness": codec_witness,
         "verus_units": ["codec_enc", "codec_dec", "codec_thm"],
+        "extra_stages": [k5_codec_cross],
+        "kani": True,
         "technique": "contract-based deductive verification (Verus) of the real encode_vlq / encoders / MappingsDecoder::next, extracted mechanically each run, plus spec-level round-trip theorems over those contracts",
         "claim": "Unbounded proof: the real FullMappingsEncoder::encode / LinesOnlyMappingsEncoder::encode / encode_vlq equal the v3 writer spec "
                  "(enc_bytes/enc_state), the real MappingsDecoder::next equals the byte-level v3 reader dec_next on every byte string, and over those "
